@@ -83,9 +83,9 @@ static size_t mc_esc(char * out, size_t outsz, const void * data, size_t n) {
 }
 
 static const char * mc_e(const void * data, size_t n) {
-    static char bufs[8][2048];
+    static char bufs[16][2048];
     static int k = 0;
-    char * b = bufs[k++ & 7];
+    char * b = bufs[k++ & 15];
     mc_esc(b, sizeof bufs[0], data, n);
     return b;
 }
